@@ -266,6 +266,7 @@ def main():
     if a.replay:
         rp, o = native(json.load(open(a.replay))['case']); print(o); sys.exit(1 if rp else 0)
     rep = R.Report('C03', a.tier, seed); timeout = solve.TIMEOUT_MS[a.tier]
+    R.prefetch_native('props.c03_native', ['bounded', str(seed), a.tier])      # the stand-in runs while the obligations are discharged
     u = DCm.Dist()
     for k in (CPA + '::CPADistinguisherMixin._initialize', CPA + '::CPADistinguisherMixin._update', CPA + '::CPADistinguisherMixin._compute', CPA + '::CPAAlternativeDistinguisherMixin._compute',
               DPA + '::DPADistinguisherMixin._initialize', DPA + '::DPADistinguisherMixin._update', DPA + '::DPADistinguisherMixin._compute', BASE + '::DistinguisherMixin.update', BASE + '::DistinguisherMixin.compute'):
